@@ -9,11 +9,11 @@ W = "Trusted base: the simulated node of DESIGN.md section 4 (atomic RPCs, part/
 CHECKS = {
  "C01": dict(engine="WORLD", category="exploration", design="6 C01",
    technique="stateful property-based testing: proptest-generated multi-lifetime scenarios against the real HtlcManager/ClnDatastore/PayPaymentProvider over a simulated node; invariant monitor at every resolve and pay",
-   text="Generated-input search (quick ~10^4, thorough ~10^5 scenarios): 1-3 payments, HTLCs carrying the invoice of another hash, late HTLCs, crashes and write faults; at every resolve the key must hash to the HTLC's own hash and stem from a completed part or Succeeded record; at every pay no held HTLC carrying that invoice may have another hash. Right level: the defect class (D1) needs a particular request shape plus a full lifecycle, which a generator reaches in every run.",
+   text="Generated-input search (quick ~10^4, thorough ~10^5 scenarios): 1-3 payments, HTLCs carrying the invoice of another hash, late HTLCs, crashes and write faults; at every resolve the key must hash to the HTLC's own hash and stem from a completed part or Succeeded record; at every pay no held HTLC carrying that invoice may have another hash. Right level: the defect class (D1) needs a particular request shape plus a full lifecycle, which a generator reaches in every run. A phase starts with payment 0 already paid by an earlier run (Succeeded record in the pinned release's stored format + complete part).",
    note=W),
  "C02": dict(engine="WORLD+PAR+E2E", category="fault_enumeration", design="6 C02",
    technique="stateful property-based testing with fault injection: generated schedules + systematic crash-point / write-fault enumeration (thorough) + read-fault profile (thorough); invariant monitor at every fail answer; parallel stress phase (multi-thread runtime, perturbed schedule) with answer/pay-call oracles",
-   text="Every fail answer of a trampoline HTLC is checked against the node's part table and running pay commands at that instant, over generated interleavings (part resolutions between the RPCs of wait_payment, pay outcomes leaving parts pending, restarts onto pending records) and injected write faults; thorough adds every single crash point and write fault of 150 base histories, every RPC of 200 two-attempt histories delayed, and RPC read errors (single, pairs, bursts of 3-4). A structured generator overlaps two lifecycles of one hash with one RPC of the first withheld. Fund-loss properties need one bad ordering out of thousands, which is what schedule search is for. A PAR phase releases all HTLCs of 1-10 funded sets at the same instant on an 8-thread runtime (real HtlcManager, stub collaborators, generated stalls at log call sites) and checks the answers and the pay calls.",
+   text="Every fail answer of a trampoline HTLC is checked against the node's part table and running pay commands at that instant, over generated interleavings (part resolutions between the RPCs of wait_payment, pay outcomes leaving parts pending, restarts onto pending records) and injected write faults; thorough adds every single crash point and write fault of 150 base histories, every RPC of 200 two-attempt histories delayed, and RPC read errors (single, pairs, bursts of 3-4). A structured generator overlaps two lifecycles of one hash with one RPC of the first withheld. Fund-loss properties need one bad ordering out of thousands, which is what schedule search is for. A PAR phase releases all HTLCs of 1-10 funded sets at the same instant on an 8-thread runtime (real HtlcManager, stub collaborators, generated stalls at log call sites) and checks the answers and the pay calls. A phase restarts the plugin with a different configuration (policy, safety delta, MPP timeout) than the one the earlier lifetime ran with.",
    note=W+" Known findings K1/K3 (read faults only) are listed in known_findings.json."),
  "C03": dict(engine="WORLD", category="exploration", design="6 C03",
    technique="stateful property-based testing: invariant monitor over the arguments of every pay RPC versus the HTLCs held at that instant (u128 reference arithmetic)",
@@ -21,15 +21,15 @@ CHECKS = {
    note=W),
  "C04": dict(engine="WORLD", category="exploration", design="6 C04",
    technique="stateful property-based testing: reference bound computed from the HTLCs held and the height told at the intent write, compared with maxdelay of every pay RPC",
-   text="maxdelay <= min(policy delta, sat(sat(min expiry - height told) - safety delta)) with heights advancing (notifications and silent changes) while the set is collected, expiries clustered around the boundaries, extreme delta pairs (thorough); a low-relative-expiry HTLC before funding must prevent the pay.",
+   text="maxdelay <= min(policy delta, sat(sat(min expiry - height told) - safety delta)) with heights advancing (notifications and silent changes) while the set is collected, expiries clustered around the boundaries, extreme delta pairs (thorough); a low-relative-expiry HTLC before funding must prevent the pay. A phase restarts the plugin with a different configuration (policy, safety delta, MPP timeout) than the one the earlier lifetime ran with.",
    note=W),
  "C05": dict(engine="WORLD+PAR", category="fault_enumeration", design="6 C05",
    technique="stateful property-based testing with crash-point enumeration: invariant monitor at every pay RPC against the node's sendpay table; parallel stress phase (multi-thread runtime, perturbed schedule) with answer/pay-call oracles",
-   text="No pay while a part of that hash is pending/complete or another pay runs; at most one completed payment group per hash. Generated overlaps of two lifecycles, crashes around intent writes and pay, stored histories Free/Pending/Succeeded; thorough enumerates every crash point and write fault of 150 base histories. A PAR phase releases all HTLCs of 1-10 funded sets at the same instant on an 8-thread runtime (real HtlcManager, stub collaborators, generated stalls at log call sites) and checks the answers and the pay calls.",
+   text="No pay while a part of that hash is pending/complete or another pay runs; at most one completed payment group per hash. Generated overlaps of two lifecycles, crashes around intent writes and pay, stored histories Free/Pending/Succeeded; thorough enumerates every crash point and write fault of 150 base histories. A PAR phase releases all HTLCs of 1-10 funded sets at the same instant on an 8-thread runtime (real HtlcManager, stub collaborators, generated stalls at log call sites) and checks the answers and the pay calls. A phase restarts the plugin with a different configuration (policy, safety delta, MPP timeout) than the one the earlier lifetime ran with. A phase starts with payment 0 already paid by an earlier run (Succeeded record in the pinned release's stored format + complete part). Another phase fails only the stored-state read (listdatastore).",
    note=W),
  "C06": dict(engine="WORLD+E2E+PAR+FUZZ", category="exploration", design="6 C06",
    technique="property-based testing and fuzzing: byte-level request generators in WORLD (hang = unanswered after a fair drain in the model, panic hook), the same requests through the real binary (reply shape), libFuzzer campaign in thorough",
-   text="Arbitrary payload/metadata bytes (truncated varints at every width, oversized lengths), numeric extremes, up to 6 HTLCs per hash, write faults (quick) and read faults (thorough): after the fair drain every call has exactly one well-formed answer, no task panicked, incomplete sets are failed within one MPP timeout. The real binary decides the reply shape (JSON-RPC error replies, panics on stderr, process exit with unanswered calls, a lost reply while later requests are answered at once); requests are also written in two pieces. Thorough adds a libFuzzer campaign over bytes -> requests + stub collaborator answers (target `request`). E2E also sends bursts of 200 forwards in one write and reports a process that sits idle with unanswered requests; a PAR phase (same-instant arrival on 8 threads) checks that no task panics.",
+   text="Arbitrary payload/metadata bytes (truncated varints at every width, oversized lengths), numeric extremes, up to 6 HTLCs per hash, write faults (quick) and read faults (thorough): after the fair drain every call has exactly one well-formed answer, no task panicked, incomplete sets are failed within one MPP timeout. The real binary decides the reply shape (JSON-RPC error replies, panics on stderr, process exit with unanswered calls, a lost reply while later requests are answered at once); requests are also written in two pieces. Thorough adds a libFuzzer campaign over bytes -> requests + stub collaborator answers (target `request`). E2E also sends bursts of 200 forwards in one write and reports a process that sits idle with unanswered requests; a PAR phase (same-instant arrival on 8 threads) checks that no task panics. A WORLD phase retries a hash after a failed attempt while the failure-notification service never returns.",
    note=W+" E2E uses real time only to bound waits (missing reply without a panic line = exit 2). Known finding K2 (todo!() on read fault) listed in known_findings.json."),
  "C07": dict(engine="WORLD+PAR", category="exploration", design="6 C07",
    technique="stateful property-based testing: per-instant batch monitor (all held HTLCs of a hash answered together, identically) and a reference rule for rejecting HTLCs; parallel stress phase (multi-thread runtime, perturbed schedule) with answer/pay-call oracles",
@@ -37,11 +37,11 @@ CHECKS = {
    note=W),
  "C08": dict(engine="WORLD", category="fault_enumeration", design="6 C08",
    technique="stateful property-based testing with fault enumeration: invariant over (datastore, sendpay table) after every applied RPC effect, i.e. on every crash image",
-   text="After every applied effect: parts pending/complete => stored Pending or Succeeded; stored Pending at every pay; Free only written when nothing is live; Succeeded holds a 32-byte preimage of the key's hash. Generated interleavings of two lifecycles of one hash, crashes, every write-fault kind; thorough enumerates all crash points/write faults of 150 base histories.",
+   text="After every applied effect: parts pending/complete => stored Pending or Succeeded; stored Pending at every pay; Free only written when nothing is live; Succeeded holds a 32-byte preimage of the key's hash. Generated interleavings of two lifecycles of one hash, crashes, every write-fault kind; thorough enumerates all crash points/write faults of 150 base histories. A phase restarts the plugin with a different configuration (policy, safety delta, MPP timeout) than the one the earlier lifetime ran with. A phase starts with payment 0 already paid by an earlier run (Succeeded record in the pinned release's stored format + complete part). Another phase fails only the stored-state read (listdatastore).",
    note=W),
  "C09": dict(engine="WORLD", category="fault_enumeration", design="6 C09",
    technique="fault enumeration + probe oracle: every crash point and single write fault of generated base histories, followed by a probe payment; fixpoint test of the stored image decides permanence",
-   text="For each base history: crash after every node-side effect (3 flavours) and every datastore write rejected / applied-but-reported-failed; after the drain a fully funded probe for the same invoice in a fresh lifetime must be resolved; a failing probe that leaves the stored image unchanged is a fixpoint, hence permanent. Base histories include two-attempt histories (first attempt fails, bookkeeping delayed). The first probe runs in the same process (no restart), further probes in fresh lifetimes. Random multi-crash histories in addition.",
+   text="For each base history: crash after every node-side effect (3 flavours) and every datastore write rejected / applied-but-reported-failed; after the drain a fully funded probe for the same invoice in a fresh lifetime must be resolved; a failing probe that leaves the stored image unchanged is a fixpoint, hence permanent. Base histories include two-attempt histories (first attempt fails, bookkeeping delayed). The first probe runs in the same process (no restart), further probes in fresh lifetimes. Random multi-crash histories in addition. A phase starts with payment 0 already paid by an earlier run (Succeeded record in the pinned release's stored format + complete part).",
    note=W+" MPP timeout 0 is excluded (with it the plugin pays nothing at all)."),
  "C10": dict(engine="WORLD", category="exploration", design="6 C10",
    technique="property-based testing against a reference classifier: cartesian-biased single-HTLC scenarios, class equality and pay-argument checks",
@@ -49,7 +49,7 @@ CHECKS = {
    note=W),
  "C11": dict(engine="WORLD+PAR", category="exploration", design="6 C11",
    technique="stateful property-based testing in virtual time: timing monitor on fail answers of incomplete sets (paused tokio clock, 5 s grid); parallel stress phase (multi-thread runtime, perturbed schedule) with answer/pay-call oracles",
-   text="Incomplete sets (also after 1-3 attempts the plugin itself concluded): answer 0x2019, never left unanswered, no pay, t_fail in [t_fetch+T, t_fetch+T+1 s] for fresh hashes, <= t_recovery+T after a restart, immediate when the attempt is older than T+5 s. Timeouts 0-120 s, arrival patterns over ticks, restarts with downtimes on the grid. A PAR phase releases all HTLCs of 1-10 funded sets at the same instant on an 8-thread runtime (real HtlcManager, stub collaborators, generated stalls at log call sites) and checks the answers and the pay calls.",
+   text="Incomplete sets (also after 1-3 attempts the plugin itself concluded): answer 0x2019, never left unanswered, no pay, t_fail in [t_fetch+T, t_fetch+T+1 s] for fresh hashes, <= t_recovery+T after a restart, immediate when the attempt is older than T+5 s. Timeouts 0-120 s, arrival patterns over ticks, restarts with downtimes on the grid. A PAR phase releases all HTLCs of 1-10 funded sets at the same instant on an 8-thread runtime (real HtlcManager, stub collaborators, generated stalls at log call sites) and checks the answers and the pay calls. A phase restarts the plugin with a different configuration (policy, safety delta, MPP timeout) than the one the earlier lifetime ran with.",
    note=W+" One known finding (lifecycle-overlap race answering 0x2002) in known_findings.json."),
  "C12": dict(engine="PURE+WORLD", category="exploration", design="6 C12",
    technique="property-based testing: proptest + fixed boundary grid against a u128 reference model, in an overflow-checking and a wrapping build; WORLD monitor for the rejection bytes",
@@ -59,9 +59,9 @@ CHECKS = {
    technique="property-based testing with a metamorphic relation: non-trampoline-only scenarios (continue, zero RPCs, byte-exact rewrite) and insertion of such HTLCs into base scenarios (observable trace unchanged)",
    text="Generated non-trampoline classes incl. the only metadata shape that reaches the payload-rewrite branch; oracle: continue in the delivery instant, no RPC, empty datastore, rewritten payload = input records minus type 16; metamorphic: inserting them beside real payments changes neither RPC requests nor answers; a third phase delivers them while real payments have RPCs outstanding (must still be answered in the delivery instant). Thorough repeats it through the real binary with an idle RPC socket.",
    note=W),
- "C14": dict(engine="WORLD", category="exploration", design="6 C14",
+ "C14": dict(engine="WORLD+E2E", category="exploration", design="6 C14",
    technique="differential testing: payment B alone versus B beside payment A frozen at a generated RPC (or on its timer); traces must be equal",
-   text="A's RPCs are withheld forever from its k-th on (k = 0..12 covers state fetch, intent writes, pay, list calls, waitsendpay, mark_* writes); B (race-free) must produce the identical observable trace and complete.",
+   text="A's RPCs are withheld forever from its k-th on (k = 0..12 covers state fetch, intent writes, pay, list calls, waitsendpay, mark_* writes); B (race-free) must produce the identical observable trace and complete. E2E phase: while the node leaves the pay command of one hash unanswered, forwards of other hashes sent to the real binary must be answered (violation only if the process is idle and the replies are still missing).",
    note=W),
  "C15": dict(engine="WORLD(unit)", category="exploration", design="6 C15",
    technique="property-based testing + exhaustive small scope: real PayPaymentProvider<Rpc>::wait_payment against the simulated node, result compared with the sendpay table at return",
@@ -85,7 +85,7 @@ CHECKS = {
    note="Real time is involved: shallowest check; an expired wait without verdict is exit 2."),
  "C20": dict(engine="WORLD+E2E", category="exploration", design="6 C20",
    technique="stateful property-based testing in virtual time: real BlockWatcher against generated poll replies, notifications and failures; max-of-told reference model",
-   text="After every step current_height() must equal the maximum height told in this lifetime (startup, answered polls, notifications), and the next poll must arrive within 60 s of the previous answer, also after failed polls. getinfo replies may carry sync warnings. A parallel stress phase (multi-thread runtime, hundreds of concurrent notifications) checks the final height and that no reader sees a decrease. E2E (also quick): block_added wiring and the blocking startup query (slow getinfo) through the binary via the maxdelay of a following pay.",
+   text="After every step current_height() must equal the maximum height told in this lifetime (startup, answered polls, notifications), and the next poll must arrive within 60 s of the previous answer, also after failed polls. getinfo replies may carry sync warnings. A parallel stress phase (multi-thread runtime, hundreds of concurrent notifications) checks the final height and that no reader sees a decrease. E2E (also quick): block_added wiring and the blocking startup query (slow getinfo) through the binary via the maxdelay of a following pay. E2E poll phase (also quick, about 62 s): the node's height rises without notification; the binary must query again within one poll interval and use the answer. The E2E block_added phase includes bursts of 100-300 notifications in one write.",
    note=W),
 }
 
@@ -121,7 +121,7 @@ def main():
             {"name": "WORLD", "path": "harness/src/world.rs, node.rs, scen.rs, monitors.rs", "serves_properties": ["C01","C02","C03","C04","C05","C06","C07","C08","C09","C10","C11","C12","C13","C14","C15","C16","C20"], "kind_free_text": "real HtlcManager + ClnDatastore + PayPaymentProvider<Rpc> + BlockWatcher against a simulated lightningd over a unix socket in a paused, seeded tokio runtime; scenario = proptest value (payments, HTLCs, schedule, faults, crashes); monitors = invariants at node-side instants"},
             {"name": "PAR", "path": "harness/src/props/par.rs", "serves_properties": ["C02","C05","C06","C07","C11"], "kind_free_text": "real HtlcManager on a multi-thread tokio runtime with in-memory stub collaborators; all handlers released behind one barrier, schedule perturbed by generated stalls at the plugin's log call sites; not schedule-deterministic (replay repeats a case up to 25 times)"},
             {"name": "WIRE", "path": "harness/src/props/c17.rs", "serves_properties": ["C17"], "kind_free_text": "real cln_plugin driver over in-memory duplex pipes with generated chunking and handler completion order"},
-            {"name": "E2E", "path": "harness/src/e2e.rs, props/c19.rs", "serves_properties": ["C02","C06","C13","C17","C19","C20"], "kind_free_text": "the real binary target/debug/trampoline (rebuilt from /repo) on pipes, against the simulated node with an autopilot"},
+            {"name": "E2E", "path": "harness/src/e2e.rs, props/c19.rs", "serves_properties": ["C02","C06","C13","C14","C17","C19","C20"], "kind_free_text": "the real binary target/debug/trampoline (rebuilt from /repo) on pipes, against the simulated node with an autopilot"},
             {"name": "FUZZ", "path": "harness/fuzz", "serves_properties": ["C18","C06"], "kind_free_text": "cargo-fuzz/libFuzzer targets with the semantic oracle inside (thorough tier)"},
         ],
         "checks": checks,
